@@ -8,7 +8,6 @@ pub mod writers;
 
 use readers::*;
 use std::sync::Arc;
-use std::sync::atomic::AtomicUsize;
 use vcore::fault::{Fault, Plan, READ_FAULTS, WRITE_FAULTS};
 use vcore::serde_json::{Value, json};
 use vcore::{Ctx, Level, Stats, par_for};
@@ -88,17 +87,24 @@ fn mask(bytes: &[u8], positions: &[usize]) -> Vec<u8> {
 
 struct WriterRef {
     bytes: Vec<u8>,
-    calls: usize,
+    /// sink calls of the fault-free run, per write granularity
+    calls: Vec<usize>,
     sync: Vec<usize>,
 }
 
-fn writer_case_json(c: &WriterCase, k: usize, f: Fault, persistent: bool, stop: bool) -> Value {
-    json!({"sub": "writer", "writer": c.name, "call": k, "fault": fault_name(f), "persistent": persistent, "stop_at_error": stop})
+/// the sink accepts / the source returns at most this many bytes per call
+fn granularities(quick: bool) -> Vec<usize> {
+    if quick { vec![usize::MAX, 13] } else { vec![usize::MAX, 13, 1] }
+}
+
+fn writer_case_json(c: &WriterCase, k: usize, f: Fault, persistent: bool, stop: bool, g: usize, second: Option<usize>) -> Value {
+    json!({"sub": "writer", "writer": c.name, "call": k, "fault": fault_name(f), "persistent": persistent, "stop_at_error": stop, "max_bytes_per_call": if g == usize::MAX { 0 } else { g }, "second_fault_call": second})
 }
 
 /// One faulted writer run checked against the fault-free reference. Returns (fingerprint suffix, message).
-fn check_writer(c: &WriterCase, r: &WriterRef, k: usize, f: Fault, persistent: bool, stop: bool) -> (Option<(String, String)>, String, bool) {
-    let (res, bytes, _calls) = run_case(c, Plan { at: k, fault: f, persistent }, stop);
+#[allow(clippy::too_many_arguments)]
+fn check_writer(c: &WriterCase, r: &WriterRef, k: usize, f: Fault, persistent: bool, stop: bool, g: usize, second: Option<usize>) -> (Option<(String, String)>, String, bool) {
+    let (res, bytes, _calls) = run_case2(c, Plan { at: k, fault: f, persistent }, second, stop, g);
     let class = res.class();
     let fired = true;
     if let Some((step, p)) = res.panic() {
@@ -138,32 +144,31 @@ struct ReaderCase {
     /// footer formats must not report success with fewer rows
     footer: bool,
     data: Arc<Vec<u8>>,
-    run: Arc<dyn Fn(Arc<Vec<u8>>, Plan, Arc<AtomicUsize>, Arc<AtomicUsize>) -> ReadOutcome + Send + Sync>,
+    run: Arc<dyn Fn(Dev) -> ReadOutcome + Send + Sync>,
 }
 
 fn reader_cases(files: &std::collections::BTreeMap<&'static str, Vec<u8>>) -> Vec<ReaderCase> {
     let text_schema = batches(false).0.schema();
-    let mk = |name: &'static str, footer: bool, file: &str, run: Arc<dyn Fn(Arc<Vec<u8>>, Plan, Arc<AtomicUsize>, Arc<AtomicUsize>) -> ReadOutcome + Send + Sync>| ReaderCase { name, footer, data: Arc::new(files[file].clone()), run };
+    let mk = |name: &'static str, footer: bool, file: &str, run: Arc<dyn Fn(Dev) -> ReadOutcome + Send + Sync>| ReaderCase { name, footer, data: Arc::new(files[file].clone()), run };
     let s1 = text_schema.clone();
     let s2 = text_schema.clone();
     vec![
-        mk("ipc-file-reader", true, "ipc-file-writer", Arc::new(|d, p, c, f| ipc_file(Src::new(d, p, c, f, 0), false))),
-        mk("ipc-file-reader-buffered", true, "ipc-file-writer", Arc::new(|d, p, c, f| ipc_file(Src::new(d, p, c, f, 0), true))),
-        mk("ipc-stream-reader", false, "ipc-stream-writer", Arc::new(|d, p, c, f| ipc_stream(Src::new(d, p, c, f, 0), false))),
-        mk("ipc-stream-reader-buffered", false, "ipc-stream-writer", Arc::new(|d, p, c, f| ipc_stream(Src::new(d, p, c, f, 0), true))),
-        mk("avro-ocf-reader", false, "avro-ocf-writer", Arc::new(|d, p, c, f| avro_ocf(Src::new(d, p, c, f, 0)))),
-        mk("csv-reader", false, "csv-writer", Arc::new(move |d, p, c, f| csv(Src::new(d, p, c, f, 0), s1.clone()))),
-        mk("json-reader", false, "json-line-delimited-writer", Arc::new(move |d, p, c, f| json(Src::new(d, p, c, f, 0), s2.clone()))),
-        mk("parquet-arrow-reader", true, "parquet-arrow-writer", Arc::new(|d, p, c, f| parquet_arrow(FaultyFile { data: d, plan: p, calls: c, fired: f }))),
-        mk("parquet-serialized-reader", true, "parquet-serialized-file-writer", Arc::new(|d, p, c, f| parquet_serialized(FaultyFile { data: d, plan: p, calls: c, fired: f }))),
+        mk("ipc-file-reader", true, "ipc-file-writer", Arc::new(|d| ipc_file(d.open(0), false))),
+        mk("ipc-file-reader-buffered", true, "ipc-file-writer", Arc::new(|d| ipc_file(d.open(0), true))),
+        mk("ipc-stream-reader", false, "ipc-stream-writer", Arc::new(|d| ipc_stream(d.open(0), false))),
+        mk("ipc-stream-reader-buffered", false, "ipc-stream-writer", Arc::new(|d| ipc_stream(d.open(0), true))),
+        mk("avro-ocf-reader", false, "avro-ocf-writer", Arc::new(|d| avro_ocf(d.open(0)))),
+        mk("csv-reader", false, "csv-writer", Arc::new(move |d| csv(d.open(0), s1.clone()))),
+        mk("json-reader", false, "json-line-delimited-writer", Arc::new(move |d| json(d.open(0), s2.clone()))),
+        mk("parquet-arrow-reader", true, "parquet-arrow-writer", Arc::new(|d| parquet_arrow(FaultyFile(d)))),
+        mk("parquet-serialized-reader", true, "parquet-serialized-file-writer", Arc::new(|d| parquet_serialized(FaultyFile(d)))),
     ]
 }
 
-fn run_reader(c: &ReaderCase, plan: Plan) -> (ReadOutcome, usize, usize) {
-    let calls = Arc::new(AtomicUsize::new(0));
-    let fired = Arc::new(AtomicUsize::new(0));
-    let o = (c.run)(c.data.clone(), plan, calls.clone(), fired.clone());
-    (o, calls.load(std::sync::atomic::Ordering::SeqCst), fired.load(std::sync::atomic::Ordering::SeqCst))
+fn run_reader(c: &ReaderCase, plan: Plan, g: usize) -> (ReadOutcome, usize, usize) {
+    let dev = Dev::new(c.data.clone(), plan, g);
+    let o = (c.run)(dev.clone());
+    (o, dev.calls.load(std::sync::atomic::Ordering::SeqCst), dev.fired.load(std::sync::atomic::Ordering::SeqCst))
 }
 
 fn is_prefix(a: &[String], b: &[String]) -> bool {
@@ -178,7 +183,10 @@ fn check_reader(c: &ReaderCase, reference: &ReadOutcome, f: Fault, persistent: b
     if o.class.starts_with("panic") || o.class == "hang" {
         return Some((format!("{}:{}", c.name, o.class), o.msg.clone()));
     }
-    if !is_prefix(&o.rows, &reference.rows) {
+    // CSV is not self-delimiting: a file that ends early inside a record is a valid file whose last record is
+    // shorter, so after a premature EOF the last delivered row is exempt
+    let rows: &[String] = if c.name == "csv-reader" && f == Fault::Zero && !o.rows.is_empty() { &o.rows[..o.rows.len() - 1] } else { &o.rows };
+    if !is_prefix(rows, &reference.rows) {
         return Some((format!("{}:rows-not-a-prefix-of-fault-free-rows", c.name), format!("rows {:?} vs fault-free {:?}", o.rows, reference.rows)));
     }
     if fired == 0 {
@@ -246,44 +254,41 @@ fn trunc_cases(files: &std::collections::BTreeMap<&'static str, Vec<u8>>, quick:
         v.push(TruncCase { file: file.to_string(), reader, footer, data: Arc::new(data.clone()), lens, run });
     };
     let cur = |d: &[u8]| std::io::Cursor::new(d.to_vec());
-    for f in ["ipc-file-writer", "ipc-file-writer-buffered"] {
+    let names: Vec<&'static str> = files.keys().copied().collect();
+    for f in names {
         let d = &files[f];
-        add(f, "ipc-file-reader", true, d, all(d), Arc::new(move |p| ipc_file(cur(p), false)));
-    }
-    {
-        let d = &files["ipc-stream-writer"];
-        add("ipc-stream-writer", "ipc-stream-reader", false, d, all(d), Arc::new(move |p| ipc_stream(cur(p), false)));
-        add("ipc-stream-writer", "ipc-stream-reader-buffered", false, d, all(d), Arc::new(move |p| ipc_stream(cur(p), true)));
-        add("ipc-stream-writer", "ipc-stream-decoder", false, d, all(d), Arc::new(ipc_stream_decoder));
-    }
-    for f in ["parquet-arrow-writer", "parquet-arrow-writer-close", "parquet-arrow-writer-into-inner", "parquet-serialized-file-writer", "parquet-async-arrow-writer"] {
-        let d = &files[f];
-        if f != "parquet-serialized-file-writer" {
-            add(f, "parquet-arrow-reader", true, d, all(d), Arc::new(|p| parquet_arrow(bytes::Bytes::copy_from_slice(p))));
+        if f.starts_with("ipc-file-writer") {
+            add(f, "ipc-file-reader", true, d, all(d), Arc::new(move |p| ipc_file(cur(p), false)));
+        } else if f.starts_with("ipc-stream-writer") {
+            add(f, "ipc-stream-reader", false, d, all(d), Arc::new(move |p| ipc_stream(cur(p), false)));
+            add(f, "ipc-stream-reader-buffered", false, d, all(d), Arc::new(move |p| ipc_stream(cur(p), true)));
+            add(f, "ipc-stream-decoder", false, d, all(d), Arc::new(ipc_stream_decoder));
+        } else if f.starts_with("parquet-") {
+            if f != "parquet-serialized-file-writer" {
+                add(f, "parquet-arrow-reader", true, d, all(d), Arc::new(|p| parquet_arrow(bytes::Bytes::copy_from_slice(p))));
+            }
+            add(f, "parquet-serialized-reader", true, d, all(d), Arc::new(|p| parquet_serialized(bytes::Bytes::copy_from_slice(p))));
+            add(
+                f,
+                "parquet-metadata-push-decoder",
+                true,
+                d,
+                all(d),
+                Arc::new(|p| {
+                    guarded(|o| {
+                        let m = crate::c14::pqmeta::run_push(&bytes::Bytes::copy_from_slice(p), 1, &crate::c14::pqmeta::Policy::Exact);
+                        o.class = if m.class == "ok" { "ok".into() } else if m.class.starts_with("err:") || m.class.starts_with("panic") { m.class.clone() } else { format!("err:{}", m.class) };
+                        o.msg = m.msg.clone();
+                        if let Some(md) = &m.meta {
+                            // one "row" per row group: its row count
+                            o.rows = md.row_groups().iter().map(|g| format!("row-group:{}", g.num_rows())).collect();
+                        }
+                    })
+                }),
+            );
+        } else if f.starts_with("avro-ocf-writer") {
+            add(f, "avro-ocf-reader", false, d, all(d), Arc::new(move |p| avro_ocf(cur(p))));
         }
-        add(f, "parquet-serialized-reader", true, d, all(d), Arc::new(|p| parquet_serialized(bytes::Bytes::copy_from_slice(p))));
-        add(
-            f,
-            "parquet-metadata-push-decoder",
-            true,
-            d,
-            all(d),
-            Arc::new(|p| {
-                guarded(|o| {
-                    let m = crate::c14::pqmeta::run_push(&bytes::Bytes::copy_from_slice(p), 1, &crate::c14::pqmeta::Policy::Exact);
-                    o.class = if m.class == "ok" { "ok".into() } else if m.class.starts_with("err:") || m.class.starts_with("panic") { m.class.clone() } else { format!("err:{}", m.class) };
-                    o.msg = m.msg.clone();
-                    if let Some(md) = &m.meta {
-                        // one "row" per row group: its row count
-                        o.rows = md.row_groups().iter().map(|g| format!("row-group:{}", g.num_rows())).collect();
-                    }
-                })
-            }),
-        );
-    }
-    {
-        let d = &files["avro-ocf-writer"];
-        add("avro-ocf-writer", "avro-ocf-reader", false, d, all(d), Arc::new(move |p| avro_ocf(cur(p))));
     }
     {
         let d = &files["csv-writer"];
@@ -344,13 +349,18 @@ fn replay(case: &Value) -> ! {
         "writer" => {
             let cases = cases();
             let c = cases.iter().find(|c| Some(c.name) == case["writer"].as_str()).expect("writer");
-            let (_, bytes, calls) = run_case(c, Plan::none(), false);
-            let r = WriterRef { sync: if c.deterministic { vec![] } else { avro_sync_positions(&bytes) }, bytes, calls };
+            let g = match case["max_bytes_per_call"].as_u64().unwrap_or(0) {
+                0 => usize::MAX,
+                x => x as usize,
+            };
+            let (_, bytes, calls) = run_case(c, Plan::none(), false, g);
+            let r = WriterRef { sync: if c.deterministic { vec![] } else { avro_sync_positions(&bytes) }, bytes, calls: vec![calls] };
             let (k, f, p, stop) = (case["call"].as_u64().unwrap() as usize, fault_of(case["fault"].as_str().unwrap()), case["persistent"].as_bool().unwrap(), case["stop_at_error"].as_bool().unwrap());
-            let (res, got, _) = run_case(c, Plan { at: k, fault: f, persistent: p }, stop);
-            println!("expectation: every call returns (no panic, no hang); all Ok => sink content equals the {} fault-free bytes; bytes accepted before the first error are a prefix of them ({} sink calls fault-free)", r.bytes.len(), r.calls);
+            let second = case["second_fault_call"].as_u64().map(|x| x as usize);
+            let (res, got, _) = run_case2(c, Plan { at: k, fault: f, persistent: p }, second, stop, g);
+            println!("expectation: every call returns (no panic, no hang); all Ok => sink content equals the {} fault-free bytes; bytes accepted before the first error are a prefix of them ({} sink calls fault-free)", r.bytes.len(), calls);
             println!("observation: steps={:?} accepted={} bytes", res.steps, got.len());
-            let (v, _, _) = check_writer(c, &r, k, f, p, stop);
+            let (v, _, _) = check_writer(c, &r, k, f, p, stop, g, second);
             if let Some((fp, m)) = v {
                 println!("replay outcome: VIOLATION {fp}: {m}");
                 failed = true;
@@ -359,9 +369,13 @@ fn replay(case: &Value) -> ! {
         "reader" => {
             let rc = reader_cases(&files);
             let c = rc.iter().find(|c| Some(c.name) == case["reader"].as_str()).expect("reader");
-            let (reference, n, _) = run_reader(c, Plan::none());
+            let g = match case["max_bytes_per_call"].as_u64().unwrap_or(0) {
+                0 => usize::MAX,
+                x => x as usize,
+            };
+            let (reference, n, _) = run_reader(c, Plan::none(), g);
             let (k, f, p) = (case["call"].as_u64().unwrap() as usize, fault_of(case["fault"].as_str().unwrap()), case["persistent"].as_bool().unwrap());
-            let (o, _, fired) = run_reader(c, Plan { at: k, fault: f, persistent: p });
+            let (o, _, fired) = run_reader(c, Plan { at: k, fault: f, persistent: p }, g);
             println!("expectation: fault-free run makes {n} read calls and returns class={} rows={}", reference.class, reference.rows.len());
             println!("observation: class={} rows={} msg={:?}", o.class, o.rows.len(), o.msg);
             if let Some((fp, m)) = check_reader(c, &reference, f, p, &o, fired) {
@@ -396,12 +410,12 @@ fn replay(case: &Value) -> ! {
 fn fault_free_files() -> std::collections::BTreeMap<&'static str, Vec<u8>> {
     let mut m = std::collections::BTreeMap::new();
     for c in cases() {
-        let (res, bytes, _) = run_case(&c, Plan::none(), false);
+        let (res, bytes, _) = run_case(&c, Plan::none(), false, usize::MAX);
         if !res.all_ok() {
             eprintln!("MACHINERY: fault-free run of {} failed: {:?}", c.name, res.steps);
             std::process::exit(2);
         }
-        let bytes = if c.name == "avro-ocf-writer" {
+        let bytes = if !c.deterministic {
             // pin the random sync marker so that every run of the check sees the same file
             let pos = avro_sync_positions(&bytes);
             let mut b = bytes;
@@ -426,49 +440,105 @@ pub fn run(ctx: &Ctx) -> ! {
 
     // ---------------- writers
     let wcases = cases();
+    let grans = granularities(quick);
     let mut refs: Vec<WriterRef> = vec![];
     for c in &wcases {
-        let (res, bytes, calls) = run_case(c, Plan::none(), false);
-        if !res.all_ok() {
-            eprintln!("MACHINERY: fault-free run of {} failed: {:?}", c.name, res.steps);
-            std::process::exit(2);
+        let mut calls = vec![];
+        let mut bytes0 = vec![];
+        for (gi, &g) in grans.iter().enumerate() {
+            let (res, bytes, n) = run_case(c, Plan::none(), false, g);
+            if !res.all_ok() {
+                eprintln!("MACHINERY: fault-free run of {} failed: {:?}", c.name, res.steps);
+                std::process::exit(2);
+            }
+            // determinism of the fault-free output (the prefix oracle relies on it)
+            let (_, again, n2) = run_case(c, Plan::none(), false, g);
+            let sync = if c.deterministic { vec![] } else { avro_sync_positions(&bytes) };
+            if mask(&again, &sync) != mask(&bytes, &sync) || n != n2 || (gi > 0 && mask(&bytes, &sync) != mask(&bytes0, &sync)) {
+                eprintln!("MACHINERY: writer {} is not deterministic after masking; the prefix oracle does not apply", c.name);
+                std::process::exit(2);
+            }
+            if gi == 0 {
+                bytes0 = bytes;
+            }
+            calls.push(n);
         }
-        // determinism of the fault-free output (the prefix oracle relies on it)
-        let (_, again, calls2) = run_case(c, Plan::none(), false);
-        let sync = if c.deterministic { vec![] } else { avro_sync_positions(&bytes) };
-        if mask(&again, &sync) != mask(&bytes, &sync) || calls != calls2 {
-            eprintln!("MACHINERY: writer {} is not deterministic after masking; the prefix oracle does not apply", c.name);
-            std::process::exit(2);
-        }
-        refs.push(WriterRef { bytes, calls, sync });
+        let sync = if c.deterministic { vec![] } else { avro_sync_positions(&bytes0) };
+        refs.push(WriterRef { bytes: bytes0, calls, sync });
     }
     let wmenu = write_menu();
-    let mut wjobs: Vec<(usize, u64)> = vec![]; // (case, first)
+    let mut wjobs: Vec<(usize, usize, u64)> = vec![]; // (case, granularity index, first)
     let mut first = 0u64;
     for (i, r) in refs.iter().enumerate() {
-        wjobs.push((i, first));
-        first += (r.calls * wmenu.len() * 2) as u64;
+        for gi in 0..grans.len() {
+            wjobs.push((i, gi, first));
+            first += (r.calls[gi] * wmenu.len() * 2) as u64;
+        }
     }
-    let wfirsts: Vec<u64> = wjobs.iter().map(|j| j.1).collect();
+    let wfirsts: Vec<u64> = wjobs.iter().map(|j| j.2).collect();
     st.merge(par_for(ctx, "writers", first, 8, |idx, st| {
         let j = wjobs[wfirsts.partition_point(|&f| f <= idx) - 1];
         let c = &wcases[j.0];
         let r = &refs[j.0];
-        let mut k = (idx - j.1) as usize;
+        let g = grans[j.1];
+        let mut k = (idx - j.2) as usize;
         let stop = k % 2 == 0;
         k /= 2;
         let (f, persistent) = wmenu[k % wmenu.len()];
         let call = k / wmenu.len();
-        let (v, class, _) = check_writer(c, r, call, f, persistent, stop);
+        let (v, class, _) = check_writer(c, r, call, f, persistent, stop, g, None);
         st.add(&format!("writer:{}", c.name), 1, 1);
         st.outcome(&format!("writer:{}", class));
         if let Some((fp, m)) = v {
-            st.violate(idx, format!("c18:{fp}"), format!("{} call {call} fault {} persistent={persistent} stop_at_error={stop}: {m}", c.name, fault_name(f)), || writer_case_json(c, call, f, persistent, stop));
+            st.violate(idx, format!("c18:{fp}"), format!("{} call {call} fault {} persistent={persistent} stop_at_error={stop} max_bytes_per_call={}: {m}", c.name, fault_name(f), if g == usize::MAX { 0 } else { g }), || writer_case_json(c, call, f, persistent, stop, g, None));
         }
-        if call == r.calls / 2 && k % wmenu.len() == 0 && stop {
-            st.sample(&format!("writer:{}", c.name), || writer_case_json(c, call, f, persistent, stop));
+        if call == r.calls[j.1] / 2 && k % wmenu.len() == 0 && stop && j.1 == 0 {
+            st.sample(&format!("writer:{}", c.name), || writer_case_json(c, call, f, persistent, stop, g, None));
         }
     }));
+    let mut first = first;
+    // ---------------- writers, pairs of faults (thorough): first fault once at k1, Err(Other) once at k2 > k1
+    if !quick {
+        let firsts_menu = [Fault::ErrOther, Fault::ErrInterrupted, Fault::ShortHalf];
+        let mut pjobs: Vec<(usize, u64)> = vec![];
+        let mut pfirst = 0u64;
+        for (i, r) in refs.iter().enumerate() {
+            let n = r.calls[0] as u64;
+            pjobs.push((i, pfirst));
+            pfirst += n * n.saturating_sub(1) / 2 * firsts_menu.len() as u64 * 2;
+        }
+        let pfirsts: Vec<u64> = pjobs.iter().map(|j| j.1).collect();
+        let base = first;
+        st.merge(par_for(ctx, "writers-fault-pairs", pfirst, 8, |idx, st| {
+            let j = pjobs[pfirsts.partition_point(|&f| f <= idx) - 1];
+            let c = &wcases[j.0];
+            let r = &refs[j.0];
+            let n = r.calls[0] as u64;
+            let mut k = idx - j.1;
+            let stop = k % 2 == 0;
+            k /= 2;
+            let f = firsts_menu[(k % 3) as usize];
+            k /= 3;
+            // unrank the pair (k1 < k2)
+            let mut k1 = 0u64;
+            loop {
+                let row = n - 1 - k1;
+                if k < row {
+                    break;
+                }
+                k -= row;
+                k1 += 1;
+            }
+            let k2 = k1 + 1 + k;
+            let (v, class, _) = check_writer(c, r, k1 as usize, f, false, stop, usize::MAX, Some(k2 as usize));
+            st.add(&format!("writer-pairs:{}", c.name), 1, 1);
+            st.outcome(&format!("writer:{}", class));
+            if let Some((fp, m)) = v {
+                st.violate(base + idx, format!("c18:{fp}"), format!("{} calls {k1} ({}) and {k2} (err-other) stop_at_error={stop}: {m}", c.name, fault_name(f)), || writer_case_json(c, k1 as usize, f, false, stop, usize::MAX, Some(k2 as usize)));
+            }
+        }));
+        first += pfirst;
+    }
     let base_r = first;
 
     // ---------------- readers under faults
@@ -476,35 +546,39 @@ pub fn run(ctx: &Ctx) -> ! {
     let rcases = reader_cases(&files);
     let rmenu = read_menu();
     let mut rrefs = vec![];
-    let mut rjobs: Vec<(usize, u64)> = vec![];
+    let mut rjobs: Vec<(usize, usize, u64)> = vec![];
     let mut first = 0u64;
     for (i, c) in rcases.iter().enumerate() {
-        let (o, n, _) = run_reader(c, Plan::none());
-        if o.class != "ok" || o.rows.is_empty() {
-            eprintln!("MACHINERY: fault-free read with {} failed: {} {}", c.name, o.class, o.msg);
-            std::process::exit(2);
+        let mut per_g = vec![];
+        for (gi, &g) in grans.iter().enumerate() {
+            let (o, n, _) = run_reader(c, Plan::none(), g);
+            if o.class != "ok" || o.rows.is_empty() {
+                eprintln!("MACHINERY: fault-free read with {} failed: {} {}", c.name, o.class, o.msg);
+                std::process::exit(2);
+            }
+            rjobs.push((i, gi, first));
+            first += (n * rmenu.len()) as u64;
+            per_g.push((o, n));
         }
-        rjobs.push((i, first));
-        first += (n * rmenu.len()) as u64;
-        rrefs.push((o, n));
+        rrefs.push(per_g);
     }
-    let rfirsts: Vec<u64> = rjobs.iter().map(|j| j.1).collect();
+    let rfirsts: Vec<u64> = rjobs.iter().map(|j| j.2).collect();
     st.merge(par_for(ctx, "readers", first, 8, |idx, st| {
         let j = rjobs[rfirsts.partition_point(|&f| f <= idx) - 1];
         let c = &rcases[j.0];
-        let k = (idx - j.1) as usize;
+        let g = grans[j.1];
+        let k = (idx - j.2) as usize;
         let (f, persistent) = rmenu[k % rmenu.len()];
         let call = k / rmenu.len();
-        let (o, _, fired) = run_reader(c, Plan { at: call, fault: f, persistent });
+        let (o, _, fired) = run_reader(c, Plan { at: call, fault: f, persistent }, g);
         st.add(&format!("reader:{}", c.name), 1, (fired > 0) as u64);
         st.outcome(&format!("reader:{}:{}", fault_name(f), o.class.split(':').take(2).collect::<Vec<_>>().join(":")));
-        if let Some((fp, m)) = check_reader(c, &rrefs[j.0].0, f, persistent, &o, fired) {
-            st.violate(base_r + idx, format!("c18:{fp}"), format!("{} read call {call} fault {} persistent={persistent}: {m}", c.name, fault_name(f)), || {
-                json!({"sub": "reader", "reader": c.name, "call": call, "fault": fault_name(f), "persistent": persistent})
-            });
+        let cj = || json!({"sub": "reader", "reader": c.name, "call": call, "fault": fault_name(f), "persistent": persistent, "max_bytes_per_call": if g == usize::MAX { 0 } else { g }});
+        if let Some((fp, m)) = check_reader(c, &rrefs[j.0][j.1].0, f, persistent, &o, fired) {
+            st.violate(base_r + idx, format!("c18:{fp}"), format!("{} read call {call} fault {} persistent={persistent} max_bytes_per_call={}: {m}", c.name, fault_name(f), if g == usize::MAX { 0 } else { g }), cj);
         }
-        if call == rrefs[j.0].1 / 2 && k % rmenu.len() == 0 {
-            st.sample(&format!("reader:{}", c.name), || json!({"sub": "reader", "reader": c.name, "call": call, "fault": fault_name(f), "persistent": persistent}));
+        if call == rrefs[j.0][j.1].1 / 2 && k % rmenu.len() == 0 && j.1 == 0 {
+            st.sample(&format!("reader:{}", c.name), cj);
         }
     }));
     let base_t = base_r + first;
@@ -542,10 +616,11 @@ pub fn run(ctx: &Ctx) -> ! {
 
     st.extra.insert(
         "writers".into(),
-        json!(wcases.iter().zip(&refs).map(|(c, r)| json!({"writer": c.name, "sink_calls": r.calls, "bytes": r.bytes.len()})).collect::<Vec<_>>()),
+        json!(wcases.iter().zip(&refs).map(|(c, r)| json!({"writer": c.name, "sink_calls_per_granularity": r.calls, "bytes": r.bytes.len()})).collect::<Vec<_>>()),
     );
-    st.extra.insert("readers".into(), json!(rcases.iter().zip(&rrefs).map(|(c, r)| json!({"reader": c.name, "read_calls": r.1, "rows": r.0.rows.len()})).collect::<Vec<_>>()));
+    st.extra.insert("readers".into(), json!(rcases.iter().zip(&rrefs).map(|(c, r)| json!({"reader": c.name, "read_calls_per_granularity": r.iter().map(|x| x.1).collect::<Vec<_>>(), "rows": r[0].0.rows.len()})).collect::<Vec<_>>()));
     st.extra.insert("truncation_cases".into(), json!(tcases.iter().map(|c| json!({"file": c.file, "reader": c.reader, "prefixes": c.lens.len()})).collect::<Vec<_>>()));
+    st.extra.insert("granularities_max_bytes_per_call".into(), json!(grans.iter().map(|&g| if g == usize::MAX { "unbounded".to_string() } else { g.to_string() }).collect::<Vec<_>>()));
     st.extra.insert("write_fault_menu".into(), json!(wmenu.iter().map(|(f, p)| format!("{}{}", fault_name(*f), if *p { "(persistent)" } else { "(once)" })).collect::<Vec<_>>()));
     st.extra.insert("read_fault_menu".into(), json!(rmenu.iter().map(|(f, p)| format!("{}{}", fault_name(*f), if *p { "(persistent)" } else { "(once)" })).collect::<Vec<_>>()));
 
@@ -553,7 +628,7 @@ pub fn run(ctx: &Ctx) -> ! {
         ctx,
         Level {
             category: "fault_enumeration",
-            rule: "complete products: writers = (writer script) x (every sink call index k < n of the fault-free run) x (fault menu, once/persistent) x (stop at the first reported error | continue the script); readers = (reader) x (every read call index k < n) x (fault menu); truncation = (file) x (reader of that format) x (every prefix length 0..=len; CSV: every record boundary). Every tuple is a distinct case; a faulted case is non-trivial when the planned call index exists in the run (writers: always, k < n by construction; readers: the fault fired), a truncation case when the prefix is proper".into(),
+            rule: "complete products: writers = (writer script) x (device granularity: unbounded | at most 13 bytes per call) x (every sink call index k < n of the fault-free run) x (fault menu, once/persistent) x (stop at the first reported error | continue the script); readers = (reader) x (device granularity) x (every read call index k < n) x (fault menu); truncation = (file) x (reader of that format) x (every prefix length 0..=len; CSV: every record boundary). Every tuple is a distinct case; a faulted case is non-trivial when the planned call index exists in the run (writers: always, k < n by construction; readers: the fault fired), a truncation case when the prefix is proper".into(),
             assumptions: vec![
                 "persistent Interrupted on a sink is excluded: std::io::Write::write_all is specified to retry Interrupted, so such a sink blocks any correct writer".into(),
                 "a spurious Ok(0) from a source followed by more data (Zero once) is excluded: Read documents Ok(0) as end of file; Zero is only injected persistently (= the file ends at that call)".into(),
